@@ -33,20 +33,20 @@ def expectedSites : List (String × String × String) := [
   ("prefs-write", "cssutils/script.py:csscombine", "useMinified"),
   ("prefs-write", "cssutils/scripts/cssparse.py:main", "useMinified"),
   -- ctor / runChild: `{ g with pushed := [] }`
-  ("pushed-clear", "cssutils/prodparser.py:ProdParser.__init__", "plain"),
+  ("pushed-clear", "cssutils/prodparser.py:ProdParser.__init__", "-"),
   -- onTok (ParseError with stopIf) and onFound (stopAndKeep)
-  ("pushed-push", "cssutils/prodparser.py:ProdParser.parse", "plain"),
-  ("pushed-push", "cssutils/prodparser.py:ProdParser.parse", "plain"),
+  ("pushed-push", "cssutils/prodparser.py:ProdParser.parse", "-"),
+  ("pushed-push", "cssutils/prodparser.py:ProdParser.parse", "-"),
   -- Tokenizer.__init__/clear/push
-  ("pushed-write", "cssutils/tokenize2.py:Tokenizer.__init__", "plain"),
-  ("pushed-write", "cssutils/tokenize2.py:Tokenizer.clear", "plain"),
-  ("pushed-write", "cssutils/tokenize2.py:Tokenizer.push", "plain"),
+  ("pushed-write", "cssutils/tokenize2.py:Tokenizer.__init__", "-"),
+  ("pushed-write", "cssutils/tokenize2.py:Tokenizer.clear", "-"),
+  ("pushed-write", "cssutils/tokenize2.py:Tokenizer.push", "-"),
   -- onTok (NoMatch with stopIf)
-  ("saved-append", "cssutils/prodparser.py:ProdParser.parse", "plain"),
+  ("saved-append", "cssutils/prodparser.py:ProdParser.parse", "-"),
   -- PG.saved
-  ("saved-def", "cssutils/prodparser.py:<module>", "plain"),
+  ("saved-def", "cssutils/prodparser.py:<module>", "-"),
   -- fetch
-  ("saved-pop", "cssutils/prodparser.py:ProdParser.parse", "try"),
+  ("saved-pop", "cssutils/prodparser.py:ProdParser.parse", "-"),
   -- Step.combine
   ("ser-swap", "cssutils/script.py:csscombine", "plain"),
   ("ser-swap", "cssutils/script.py:csscombine", "plain"),
